@@ -705,4 +705,49 @@ theorem eq_of_mem_of_id_eq (l : List (Proposal C)) (h : (l.map (·.id)).Nodup) (
 theorem closeAll_log_enacted (ps : List (Proposal C)) (s : St Ext C Pm) :
     enactedPids (closeAll s ps).log = enactedPids s.log := (closeAll_frame ps s).2.2.2
 
+/-! ### sequential semantics of the begin block -/
+
+/-- the fold over the block's proposals factors at every position: the proposals before `p` are processed first,
+    `p` is processed on the state THEY left, the rest on the state `p` left -/
+theorem processAll_split (env : Env Ext C Pm) (now : Int) (pre : List (Proposal C)) (p : Proposal C)
+    (post : List (Proposal C)) :
+    ∀ s s' : St Ext C Pm, processAll env now s (pre ++ p :: post) = .ok s' →
+      ∃ si si', processAll env now s pre = .ok si ∧ processOne env now si p = .ok si' ∧
+        processAll env now si' post = .ok s' := by
+  induction pre with
+  | nil =>
+    intro s s' h
+    simp only [List.nil_append] at h
+    unfold processAll at h
+    split at h
+    · rename_i s1 h1
+      exact ⟨s, s1, by simp [processAll], h1, h⟩
+    · cases h
+    · cases h
+  | cons q qs ih =>
+    intro s s' h
+    simp only [List.cons_append] at h
+    unfold processAll at h
+    split at h
+    · rename_i s1 h1
+      obtain ⟨si, si', ha, hb, hc⟩ := ih s1 s' h
+      refine ⟨si, si', ?_, hb, hc⟩
+      unfold processAll
+      rw [h1]
+      exact ha
+    · cases h
+    · cases h
+
+/-- what processing one proposal did, in terms of the state it was processed on -/
+theorem processOne_effect (env : Env Ext C Pm) (now : Int) (s s' : St Ext C Pm) (p : Proposal C)
+    (h : processOne env now s p = .ok s') :
+    s' = s ∨ (∃ o, o ≠ Outcome.passed ∧ s' = close s p.id o) ∨
+    ∃ com e, getCommittee s p.cid = some com ∧ env.permits com.perms p.content s.ext = true ∧
+      env.handler p.content s.ext = some e ∧
+      s' = close { s with ext := e, log := s.log ++ [.enacted p.id] } p.id .passed := by
+  cases processOne_shape env now s s' p h with
+  | same => exact Or.inl rfl
+  | closed o ho => exact Or.inr (Or.inl ⟨o, ho, rfl⟩)
+  | enacted e com hc hperm _ hh => exact Or.inr (Or.inr ⟨com, e, hc, hperm, hh, rfl⟩)
+
 end KV.Com
